@@ -498,10 +498,13 @@ func extItoa(fr *frame, args []value) value {
 }
 
 func extFormatFloat(fr *frame, args []value) value {
-	if _, ok := args[0].(symFloat); ok {
+	if sf, ok := args[0].(symFloat); ok {
+		// The decimal rendering of a symbolic float is opaque text: its
+		// identity is the float term, its length an unknown in [1,330].
 		px := fr.i.px
-		// opaque text of unknown content: unsupported for anything but length-free uses
-		px.abort("unsupported", "FormatFloat on symbolic float")
+		ln := px.newSym("env", "fmtfloat_len", 64)
+		px.assume(px.ar.And(px.ar.Cmp(OpUle, px.ar.Const(64, 1), ln), px.ar.Cmp(OpUle, ln, px.ar.Const(64, 330))))
+		return &rope{parts: []ropePart{{kind: rkOpaque, num: ln, id: sf.t}}}
 	}
 	return strconv.FormatFloat(args[0].(float64), args[1].(byte), args[2].(int), args[3].(int))
 }
@@ -785,6 +788,10 @@ func extBuilderWriteRune(fr *frame, args []value) value {
 
 func extBuilderWrite(fr *frame, args []value) value {
 	slot := builderSlot(fr, args[0])
+	if rb, ok := args[1].(ropeBytes); ok {
+		*slot = ropeConcat(builderGet(slot), rb.r)
+		return tuple{ropeMinLen(rb.r), iface{}}
+	}
 	bs := args[1].([]value)
 	s := conv(fr, types.Typ[types.String], types.NewSlice(types.Typ[types.Byte]), bs)
 	*slot = ropeConcat(builderGet(slot), s)
@@ -812,6 +819,9 @@ func extBuilderReset(fr *frame, args []value) value {
 
 func extBufferBytes(fr *frame, args []value) value {
 	s := builderGet(builderSlot(fr, args[0]))
+	if r, ok := s.(*rope); ok && !r.hasOnlyFixed() {
+		return ropeBytes{r}
+	}
 	return conv(fr, types.NewSlice(types.Typ[types.Byte]), types.Typ[types.String], s)
 }
 
